@@ -416,3 +416,86 @@ theorem countP_congr_mem {α : Type} {l : List α} {p q : α → Bool} (h : ∀ 
 
 end Metrics
 end Graphiq
+
+/-! ## `reg_gate_history` = the wire -/
+namespace Graphiq
+namespace Dag
+open Relation
+
+/-- the out-edge of `n` keyed `r` is the edge to the successor of `n` on the wire of `r` -/
+theorem find_outEdge {c : Dag} {P : Paths} (h : Inv c P) {r : Reg} {n m : NodeId} (hc : Consec (P r) n m) :
+    ∃ e, (c.outEdges n).find? (fun e => e.key = r) = some e ∧ e.dst = m := by
+  have hmem : (⟨n, m, r⟩ : Edge) ∈ c.outEdges n := by
+    simp [outEdges, (h.edges_iff ⟨n, m, r⟩).mpr hc]
+  cases hf : (c.outEdges n).find? (fun e => e.key = r) with
+  | none =>
+    have := List.find?_eq_none.mp hf _ hmem
+    simp at this
+  | some e =>
+    refine ⟨e, rfl, ?_⟩
+    have he := List.mem_of_find?_eq_some hf
+    have hk : e.key = r := by simpa using List.find?_some hf
+    have hsrc : e.src = n := by simpa [outEdges] using (List.mem_filter.mp he).2
+    have he' : e ∈ c.edges := (List.mem_filter.mp he).1
+    have hc' := (h.edges_iff e).mp he'
+    rw [hk, hsrc] at hc'
+    exact consec_succ_unique (h.nodup r) hc' hc
+
+theorem historyWalk_spec {c : Dag} {P : Paths} (h : Inv c P) (r : Reg) :
+    ∀ (suf pre : List NodeId) (n : NodeId) (fuel : Nat), P r = pre ++ n :: suf → (∃ mid, P r = .inp r :: (mid ++ [.out r])) →
+      suf.length < fuel → c.historyWalk r fuel n (n :: pre.reverse) = .ok (P r) := by
+  intro suf
+  induction suf with
+  | nil =>
+    intro pre n fuel hP hshape hf
+    obtain ⟨mid, hmid⟩ := hshape
+    have hn : n = .out r := by
+      have h1 : (P r).getLast? = some n := by rw [hP]; simp
+      have h2 : (P r).getLast? = some (.out r) := by
+        rw [hmid]
+        have : NodeId.inp r :: (mid ++ [NodeId.out r]) = (NodeId.inp r :: mid) ++ [NodeId.out r] := by simp
+        rw [this, List.getLast?_concat]
+      rw [h1] at h2; injection h2
+    cases fuel with
+    | zero => simp at hf
+    | succ f =>
+      unfold historyWalk
+      rw [if_pos hn]
+      simp [hP]
+  | cons m suf' ih =>
+    intro pre n fuel hP hshape hf
+    cases fuel with
+    | zero => simp at hf
+    | succ f =>
+      have hnd := h.nodup r
+      have hne : n ≠ .out r := by
+        intro e
+        obtain ⟨mid, hmid⟩ := hshape
+        have hcons : Consec (P r) n m := consec_iff_append.mpr ⟨pre, suf', hP⟩
+        rw [hmid, e, show NodeId.inp r :: (mid ++ [NodeId.out r]) = (NodeId.inp r :: mid) ++ [NodeId.out r] by simp] at hcons
+        rw [hmid, show NodeId.inp r :: (mid ++ [NodeId.out r]) = (NodeId.inp r :: mid) ++ [NodeId.out r] by simp] at hnd
+        exact consec_last_no_succ hnd hcons
+      have hcons : Consec (P r) n m := consec_iff_append.mpr ⟨pre, suf', hP⟩
+      obtain ⟨e, hfind, hdst⟩ := find_outEdge h hcons
+      unfold historyWalk
+      rw [if_neg hne, hfind]
+      simp only
+      rw [hdst]
+      have := ih (pre ++ [n]) m f (by rw [hP]; simp) hshape (by simp at hf; omega)
+      simpa using this
+
+/-- **`reg_gate_history(reg, reg_type)[1]` = the wire of the register** (`in`, the operation nodes in order, `out`),
+    on every circuit satisfying the invariant -/
+theorem regGateHistory_eq_wire {c : Dag} {P : Paths} (h : Inv c P) {r : Reg} (hl : c.live r) :
+    c.regGateHistory r = .ok (P r) := by
+  obtain ⟨mid, hmid⟩ := h.shape r hl
+  unfold regGateHistory
+  have hlen : (P r).length ≤ c.nodes.length := by
+    have := (h.nodup r).length_le_of_subset (fun x hx => h.mem_nodes r x hx)
+    simpa [nodeIds] using this
+  have := historyWalk_spec h r (mid ++ [.out r]) [] (.inp r) (c.nodes.length + 1) (by rw [hmid.1]; rfl) ⟨mid, hmid.1⟩
+    (by rw [hmid.1] at hlen; simp at hlen ⊢; omega)
+  simpa using this
+
+end Dag
+end Graphiq
